@@ -315,4 +315,40 @@ theorem listedOnce_of_nodup (s : Sect) (h : (s.map Prod.fst).Nodup) (m : Nat) : 
       simp [hnil]
     · simpa [List.filter_cons, hk] using hr
 
+/-! ### hybrid-reference sections -/
+
+theorem lastOf_append (a b : Sect) (n : Nat) :
+    lastOf (a ++ b) n =
+      match lastOf b n with
+      | some x => some x
+      | none => lastOf a n := by
+  induction a with
+  | nil => cases h : lastOf b n <;> simp [lastOf, h]
+  | cons p r ih =>
+    obtain ⟨k, e⟩ := p
+    simp only [List.cons_append, lastOf, ih]
+    cases lastOf b n with
+    | some x => rfl
+    | none => rfl
+
+/-- filtering a section by a predicate on the NUMBER keeps or drops all entries of a number -/
+theorem lastOf_filter_key (s : Sect) (P : Nat → Bool) (n : Nat) :
+    lastOf (s.filter (fun p => P p.1)) n = if P n then lastOf s n else none := by
+  induction s with
+  | nil => simp [lastOf]
+  | cons p r ih =>
+    obtain ⟨k, e⟩ := p
+    by_cases hP : P k = true
+    · simp only [List.filter_cons, hP, if_true, lastOf, ih]
+      by_cases hn : P n = true
+      · simp [hn]
+      · have hkn : k ≠ n := fun h => hn (h ▸ hP)
+        simp [hn, hkn]
+    · have hP' : P k = false := by simpa using hP
+      simp only [List.filter_cons, hP', Bool.false_eq_true, if_false, ih, lastOf]
+      by_cases hn : P n = true
+      · have hkn : k ≠ n := fun h => by rw [h] at hP'; rw [hP'] at hn; exact absurd hn (by simp)
+        cases hr : lastOf r n <;> simp [hn, hkn]
+      · simp [hn]
+
 end OxiVerif.C04
